@@ -42,8 +42,59 @@ type addPause struct {
 
 var curAddPause atomic.Pointer[addPause]
 
+// multiPause parks every goroutine that reaches an armed point (each point once) until that point is released.
+type multiPause struct {
+	mu     sync.Mutex
+	gates  map[string]chan struct{}
+	parked map[string]bool
+}
+
+func newMultiPause(points ...string) *multiPause {
+	m := &multiPause{gates: map[string]chan struct{}{}, parked: map[string]bool{}}
+	for _, p := range points {
+		m.gates[p] = make(chan struct{})
+	}
+	return m
+}
+
+func (m *multiPause) hit(point string) {
+	m.mu.Lock()
+	ch, ok := m.gates[point]
+	if ok && !m.parked[point] {
+		m.parked[point] = true
+	} else {
+		ch = nil
+	}
+	m.mu.Unlock()
+	if ch != nil {
+		<-ch
+	}
+}
+
+func (m *multiPause) isParked(point string) bool {
+	m.mu.Lock()
+	defer m.mu.Unlock()
+	return m.parked[point]
+}
+
+func (m *multiPause) release(point string) {
+	m.mu.Lock()
+	ch := m.gates[point]
+	delete(m.gates, point)
+	m.mu.Unlock()
+	if ch != nil {
+		close(ch)
+	}
+}
+
+var curMultiPause atomic.Pointer[multiPause]
+
 func init() {
 	h := func(point string) {
+		if q := curMultiPause.Load(); q != nil {
+			q.hit(point)
+			return
+		}
 		p := curAddPause.Load()
 		if p == nil {
 			return
